@@ -1291,9 +1291,15 @@ class Bpsec(AbstractApplication):
         # Report status reason
         failure = []
 
-        confidential_blocks = ctr.block_type(BlockConfidentialityBlock)
+        # by type code: a block which could not be decoded
+        # is not indexed under its payload class
+        confidential_blocks = ctr.block_type(12)
         # accepted blocks are removed from the container while iterating
         for bcb in list(confidential_blocks):
+            if not isinstance(bcb.payload, BlockConfidentialityBlock):
+                LOGGER.warning('Undecodable BCB in block num %s', bcb.block_num)
+                failure.append(StatusReport.ReasonCode.FAILED_SEC)
+                continue
             LOGGER.debug('Verifying BCB in %d with context %s, targets %s',
                          bcb.block_num, bcb.payload.context_id, bcb.payload.targets)
 
@@ -1328,9 +1334,15 @@ class Bpsec(AbstractApplication):
         # Report status reason
         failure = []
 
-        integ_blocks = ctr.block_type(BlockIntegrityBlock)
+        # by type code: a block which could not be decoded
+        # is not indexed under its payload class
+        integ_blocks = ctr.block_type(11)
         # accepted blocks are removed from the container while iterating
         for bib in list(integ_blocks):
+            if not isinstance(bib.payload, BlockIntegrityBlock):
+                LOGGER.warning('Undecodable BIB in block num %s', bib.block_num)
+                failure.append(StatusReport.ReasonCode.FAILED_SEC)
+                continue
             LOGGER.debug('Verifying BIB in %d with context %s, targets %s',
                          bib.block_num, bib.payload.context_id, bib.payload.targets)
 
